@@ -102,6 +102,8 @@ class Tracer:
                 projs.append(("deref",))
             elif k == "field":
                 owner = pr.get("adt") or pr.get("closure") or ("tuple" if pr.get("tuple") else None)
+                if owner in ("std::boxed::Box", "std::ptr::Unique", "std::ptr::NonNull"):
+                    continue   # Box internals: `(*b.0.pointer)` is just `*b`
                 projs.append(("field", owner, pr.get("variant"), pr.get("name", str(pr["i"]))))
             elif k == "index":
                 projs.append(("index", self.local(pr["l"], stack)))
